@@ -86,7 +86,7 @@ class C17Tables(Scenario):
 SPEC = PropSpec(
     prop="C17",
     scenarios=[(1, C17Tables)],
-    runs={"quick": 8000, "thorough": 300000},
+    runs={"quick": 60000, "thorough": 1500000},
     rule=("THIN (hash seam only).  one run = HeavyHitters (add only) or StreamThreshold (add + legitimate remove) of "
           "width {1,2,3,50} x depth 1..3, hitters/threshold 1..10, a universe of 7..12 keys, <=60 steps; the harness "
           "remembers what each add/remove RETURNED and after every step compares the tracking table with it (size, "
